@@ -11,6 +11,7 @@ import (
 	"github.com/bronlabs/bron-crypto/pkg/base/curves/k256"
 	"github.com/bronlabs/bron-crypto/pkg/base/nt/num"
 	"github.com/bronlabs/bron-crypto/pkg/base/nt/znstar"
+	"github.com/bronlabs/bron-crypto/pkg/commitments"
 	"github.com/bronlabs/bron-crypto/pkg/commitments/hashcom"
 	"github.com/bronlabs/bron-crypto/pkg/commitments/intcom"
 	"github.com/bronlabs/bron-crypto/pkg/commitments/pedersencom"
@@ -283,6 +284,70 @@ func extractCase(r *runner, i int) {
 	if (len(a.label) == 0) != (ka == "ERR") || (len(b.label) == 0) != (kb == "ERR") {
 		r.corr(id, "extract-refusal-"+scheme, fmt.Sprintf("refusal (empty label) differs: A %s B %s", ka, kb), cse, "correspondence ExtractCommitmentKey refusal [model/Commit.v extract_key]", false)
 	}
+	// the library's own Equal on the derived keys, and: a commitment under one key must not open
+	// under a different one (different transcript, label or base point)
+	if len(a.label) > 0 && len(b.label) > 0 {
+		same := a.same(b)
+		report := func(eq bool, crossOpens string, what string) {
+			if eq != same {
+				r.prop(id, "extract-key-equal-"+scheme, fmt.Sprintf("Equal()=%v on keys derived from %s", eq, what), cse, "extracted_keys_equal_iff_transcripts_equal / key_eq_iff")
+			}
+			if !same && crossOpens == "1" {
+				r.prop(id, "extract-key-cross-open-"+scheme, "a commitment made under the key of one transcript opens under the key of a different one", cse, "extracted_keys_equal_iff_transcripts_equal")
+			}
+		}
+		what := "different transcripts/labels"
+		if same {
+			what = "equal transcripts"
+		}
+		vh.Safely(func() {
+			ta, tb := applyTops(a.name, a.ops), applyTops(b.name, b.ops)
+			switch scheme {
+			case "hashcom":
+				k1, e1 := hashcom.ExtractCommitmentKey(ta, string(a.label))
+				k2, e2 := hashcom.ExtractCommitmentKey(tb, string(b.label))
+				if e1 == nil && e2 == nil {
+					c, w, _ := commitments.Commit(k1, hashcom.Message([]byte("m")), rng)
+					report(symEq(same, k1.Equal(k2), k2.Equal(k1)), verdict(func() error { return k2.Open(c, []byte("m"), w) }), what)
+				}
+			case "pedersen-k256":
+				G := curve.Generator()
+				k1, e1 := pedersencom.ExtractCommitmentKey(ta, string(a.label), G)
+				k2, e2 := pedersencom.ExtractCommitmentKey(tb, string(b.label), G)
+				sf := k256.NewScalarField()
+				m := must1(pedersencom.NewMessage(sf.FromUint64(5)))
+				w := must1(pedersencom.NewWitness(sf.FromUint64(7)))
+				if e1 == nil && e2 == nil {
+					c := must1(k1.CommitWithWitness(m, w))
+					report(symEq(same, k1.Equal(k2), k2.Equal(k1)), verdict(func() error { return k2.Open(c, m, w) }), what)
+					if same && k1.HashCode() != k2.HashCode() {
+						r.prop(id, "hashcode-pedersen-key", "keys derived from equal transcripts have different HashCode", cse, "key_eq_iff")
+					}
+					// same transcript, different base point: g differs, h is the same
+					k3, e3 := pedersencom.ExtractCommitmentKey(applyTops(a.name, a.ops), string(a.label), G.Add(G))
+					if e3 == nil {
+						if k1.Equal(k3) || k3.Equal(k1) {
+							r.prop(id, "extract-key-equal-pedersen-k256", "Equal()=true on keys derived with different base points", cse, "key_eq_iff")
+						}
+						if verdict(func() error { return k3.Open(c, m, w) }) == "1" {
+							r.prop(id, "extract-key-cross-open-pedersen-k256", "a commitment opens under the key derived with a different base point", cse, "pedersen_changed_g_fails")
+						}
+					}
+				}
+			default:
+				k1, e1 := intcom.ExtractCommitmentKey(ta, string(a.label), rg)
+				k2, e2 := intcom.ExtractCommitmentKey(tb, string(b.label), rg)
+				if e1 == nil && e2 == nil {
+					m, w := intMsg(bi(5)), intWit(bi(7))
+					c := must1(k1.CommitWithWitness(m, w))
+					report(symEq(same, k1.Equal(k2), k2.Equal(k1)), verdict(func() error { return k2.Open(c, m, w) }), what)
+					if !same && (k1.Equal(k2) != k2.Equal(k1)) {
+						r.prop(id, "extract-key-equal-"+scheme, "Equal is not symmetric", cse, "key_eq_iff")
+					}
+				}
+			}
+		})
+	}
 	// model: the extraction(s) ExtractCommitmentKey performs, appended to the history
 	check := func(s tside, impl, which string) {
 		if len(s.label) == 0 {
@@ -334,6 +399,14 @@ func extractCase(r *runner, i int) {
 	}
 	check(a, ka, "a")
 	check(b, kb, "b")
+}
+
+// symEq: equal pairs must be Equal in both directions, different pairs in neither.
+func symEq(same, ab, ba bool) bool {
+	if same {
+		return ab && ba
+	}
+	return ab || ba
 }
 
 func trunc(s string) string {
